@@ -9,7 +9,7 @@ func init() {
 			"the keeper passes to the state-change helpers the values it gave to / received from the pool model; the taker fee is the exact difference between what the trader pays and what reaches the pool, and exactly that fee is sent to the collector; the router hands the pool the after-fee coin.",
 		NotCovered:  []string{"bank balance = reported reserves over histories (direct sends are allowed by the statement)", "supply of non-share tokens (bank module semantics)", "cosmwasm pools", "pool-model internals (C04)"},
 		Assumptions: []string{"bank keeper MintCoins/BurnCoins/SendCoins semantics"},
-		MinObl:      48,
+		MinObl:      53,
 		Run:         runC02,
 	})
 }
@@ -87,4 +87,12 @@ func runC02(c *rules.Ctx) {
 	c.FreshRead(R+"RouteExactAmountOut", "poolmanager.Keeper.GetPoolModuleAndPool", swaps, "poolmanagertypes.PoolModuleI.SwapExactAmountOut", 3, "each hop of an exact-out route swaps against the pool read after the previous hop (a route may visit a pool twice)")
 	c.FreshRead(R+"SwapExactAmountIn", "poolmanager.Keeper.GetPoolModuleAndPool", swaps, "poolmanagertypes.PoolModuleI.SwapExactAmountIn", 3, "a hop swaps against the pool it has just read")
 	c.FreshRead(R+"SwapExactAmountInNoTakerFee", "poolmanager.Keeper.GetPoolModuleAndPool", swaps, "poolmanagertypes.PoolModuleI.SwapExactAmountIn", 3, "a hop swaps against the pool it has just read")
+	// ---- balancer model internals reached by the entries above
+	const BP = "x/gamm/pool-models/balancer.Pool."
+	c.Let("SHARESIN", "sdkmath.LegacyDec.TruncateInt(balancer.calcPoolSharesInGivenSingleAssetOut(...))")
+	c.CallArg(BP+"ExitSwapExactAmountOut", "balancer.Pool.exitPool", 3, "{SHARESIN}", "an exact-out exit removes from the share total exactly the shares it computed (not the caller's maximum)")
+	c.CallArg(BP+"ExitSwapExactAmountOut", "balancer.Pool.exitPool", 2, "sdk.NewCoins(tokenOut)", "…and from the reserves exactly the requested coin")
+	c.Returns(BP+"ExitSwapExactAmountOut", 0, "{SHARESIN} | zero:Int()", "…and reports those shares to the keeper, which burns them", "")
+	c.FailsWhen(BP+"ExitSwapExactAmountOut", "sdkmath.Int.GT({SHARESIN}, shareInMaxAmount)", "more shares than the caller's maximum is an error", rules.GuardOpt{Before: "balancer.Pool.exitPool"})
+	c.StoresOnlyFields(BP+"updateAllWeights", "PoolAsset", []string{"Weight"}, "a weight update (LBP poke) rewrites only the weights of the pool assets, never their token reserves")
 }
